@@ -1,7 +1,7 @@
 /*
  * Part 2 of the do_journal.c environment (see jw_env.h): stubs with ghost monitors, included AFTER the real file.
  * The including unit defines, before this header,
- *     JW_DATA_BH / JW_META_BH / JW_SCRATCH_BH   which getblk() result (g_bhs[n], in call order) plays which role,
+ *     JW_DATA_BH / JW_META_BH / JW_SCRATCH_BH   which getblk() result (g_bh0, g_bh1, g_bh2 in call order) plays which role,
  *     static void jw_on_write(struct buffer_head *bh, unsigned long long logical)   its device-write monitor,
  *     static void jw_on_read(struct buffer_head *bh, unsigned long long logical)    its device-read monitor.
  * Stubs called inside a cut loop write only the ghost object G (named in the loop's assigns clause) and the buffer
@@ -12,7 +12,17 @@
 #define JW_STUBS_H
 #include <sys/time.h>
 
-static struct buffer_head *g_bhs[3];
+#ifndef JW_BS
+#error "units on do_journal.c fix the block size: -DJW_BS=1024 or 4096"
+#endif
+/* JW_BH_SLACK bytes that may be pointed to but are never accessed (every monitor pins tags / records inside the block):
+ * the real code forms (char *)jdbt + tag_bytes up to 16 bytes behind the one-past-the-end address when the tags fill the
+ * block exactly (strict-C finding, benign; unit *_strict has no slack and reports it) */
+#ifndef JW_BH_SLACK
+#define JW_BH_SLACK 32
+#endif
+#define JW_BH_BYTES (40 + JW_BS + JW_BH_SLACK)
+static struct buffer_head *g_bh0, *g_bh1, *g_bh2;	/* getblk results in call order (scalars: one value set each) */
 static unsigned int g_getblks, g_brelses;
 static journal_t *g_journal;
 static unsigned char *g_jsb;		/* the 1024-byte journal superblock */
@@ -35,9 +45,12 @@ struct buffer_head *getblk(kdev_t kdev, unsigned long long blocknr, int blocksiz
 	CHECK(kdev == g_journal->j_dev && blocksize == (int)g_bs, "getblk: on the journal device, j_blocksize bytes");
 	if (IN.choice[g_getblks] & 1)		/* out of memory */
 		return 0;
-	/* a whole struct buffer_head (4096 data bytes; the real getblk allocates header + fs->blocksize bytes: an
-	 * object shorter than its struct type makes every field access a whole-struct byte extraction - intractable) */
-	bh = malloc(sizeof(*bh));
+	/* exactly as the real getblk: the header plus fs->blocksize (== j_blocksize) data bytes, so that a write behind
+	 * the block is an out-of-bounds write.  The size is given as a plain number (JW_BS fixed per unit) so that the
+	 * verifier models the object as a byte array: the tag cursor of the real code points into b_data at a symbolic
+	 * offset; on a struct-typed object every such write is a whole-struct byte update */
+	CHECK(JW_BH_BYTES == sizeof(struct buffer_head) - sizeof(bh->b_data) + g_bs + JW_BH_SLACK, "buffer head size as in getblk");
+	bh = malloc(JW_BH_BYTES);
 	ASSUME(bh != 0);
 	bh->b_fs = g_fs;
 	bh->b_io = 0;
@@ -46,7 +59,8 @@ struct buffer_head *getblk(kdev_t kdev, unsigned long long blocknr, int blocksiz
 	bh->b_dirty = 0;
 	bh->b_uptodate = 0;
 	bh->b_blocknr = blocknr;
-	g_bhs[g_getblks++] = bh;
+	if (g_getblks == 0) g_bh0 = bh; else if (g_getblks == 1) g_bh1 = bh; else g_bh2 = bh;
+	g_getblks++;
 	return bh;
 }
 
@@ -66,13 +80,13 @@ static void jw_dev_write(struct buffer_head *bh)
 	long e = IN.err[d];
 	CHECK(bh->b_blocknr >= IN.map_off, "write: at a block jbd2_journal_bmap produced");
 	jw_on_write(bh, bh->b_blocknr - IN.map_off);
-	if (e) {
-		bh->b_err = (int)e;
+	/* (written without branches on purpose: every conditional change of a buffer head costs the verifier a merge
+	 * of the whole 4 KiB object) failure: b_err = error, b_dirty stays; success: b_dirty = 0, b_uptodate = 1 */
+	bh->b_err = e ? (int)e : bh->b_err;
+	bh->b_dirty = e ? bh->b_dirty : 0;
+	bh->b_uptodate = e ? bh->b_uptodate : 1;
+	if (e)
 		JW_FAIL(e);
-		return;
-	}
-	bh->b_dirty = 0;
-	bh->b_uptodate = 1;
 }
 
 static void jw_dev_read(struct buffer_head *bh)
@@ -81,12 +95,10 @@ static void jw_dev_read(struct buffer_head *bh)
 	long e = IN.err[d];
 	CHECK(bh->b_blocknr >= IN.map_off, "read: at a block jbd2_journal_bmap produced");
 	jw_on_read(bh, bh->b_blocknr - IN.map_off);
-	if (e) {
-		bh->b_err = (int)e;
+	bh->b_err = e ? (int)e : bh->b_err;
+	bh->b_uptodate = e ? bh->b_uptodate : 1;
+	if (e)
 		JW_FAIL(e);
-		return;
-	}
-	bh->b_uptodate = 1;
 }
 
 void ll_rw_block(int rw, int op_flags, int nr, struct buffer_head *bhp[])
@@ -106,7 +118,7 @@ void ll_rw_block(int rw, int op_flags, int nr, struct buffer_head *bhp[])
 
 void brelse(struct buffer_head *bh)
 {
-	CHECK(bh == g_bhs[0] || bh == g_bhs[1] || bh == g_bhs[2], "brelse: a buffer obtained from getblk");
+	CHECK(bh == g_bh0 || bh == g_bh1 || bh == g_bh2, "brelse: a buffer obtained from getblk");
 	if (bh->b_dirty) {
 		if (G.failed) {
 			/* still dirty after a failed write: the release retries it; behaviour after a reported failure
@@ -127,19 +139,19 @@ int jbd2_journal_bmap(journal_t *journal, unsigned long block, unsigned long lon
 	unsigned int d = JW_D();
 	long e = IN.err[d];
 	CHECK(journal == g_journal, "bmap: on the journal");
-	if (e) {
-		*phys = IN.u32[d];
+	*phys = e ? (unsigned long long)IN.u32[d] : block + IN.map_off;
+	if (e)
 		JW_FAIL(e);
-		return (int)e;
-	}
-	*phys = block + IN.map_off;
-	return 0;
+	return (int)e;
 }
 
 blk64_t ext2fs_blocks_count(struct ext2_super_block *super)
 {
 	CHECK(super == g_fs->super, "blocks count of the filesystem the journal belongs to");
 	G.nticks++;
+#ifdef JW_TICK_COUNTS_RECORD
+	G.ntags++;
+#endif
 	return IN.fs_blocks;
 }
 
@@ -214,11 +226,8 @@ size_t fread(void *ptr, size_t size, size_t n, FILE *fp)
 		G.eof = 1;
 		return 0;
 	}
-	/* new content: the first word and the ghost byte are fresh; every other byte is arbitrary anyway */
-	B(ptr)[0] = JW_BE_BYTE(IN.u32[d], 4, 0); B(ptr)[1] = JW_BE_BYTE(IN.u32[d], 4, 1);
-	B(ptr)[2] = JW_BE_BYTE(IN.u32[d], 4, 2); B(ptr)[3] = JW_BE_BYTE(IN.u32[d], 4, 3);
-	if (g_k >= 4)
-		B(ptr)[g_k] = IN.byte[d];
+	/* new content: nothing is written here - the buffer content is arbitrary at this point (fresh object in the first
+	 * iteration, havocked by the loop cut in the arbitrary one), which IS "fread delivered an arbitrary record" */
 	G.orig_w0 = JW_BE32(ptr, 0);
 	G.orig_k = B(ptr)[g_k];
 	G.nread++;
